@@ -275,7 +275,7 @@ fn main() {{}}
     obls = ctx_obls(names, ["C12"]) + [
         Obl("C12.or.jump", ["C12", "C15"], fn="jmp_not_nil", desc="jmp_not_nil: nil -> operand popped, fall through into the fallback; present -> Goto(n) skipping the fallback with the present value (payload, not wrapper) on the stack"),
         Obl("C12.get", ["C12"], fn="unwrap", desc="unwrap: Err exactly on nil; a present optional is replaced by its payload; non-optional unchanged"),
-        Obl("C12.unwrap_into", ["C12", "C08"], fn="unwrap_into", desc="unwrap_into: binds the name to nil / the payload in the current frame and pushes exactly the presence flag"),
+        Obl("C12.unwrap_into", ["C12", "C08"], fn="unwrap_into", desc="unwrap_into (`a ?= e`): writes nil / the payload into the variable `a` visible at that point (as `store` does, no new local of the innermost frame) and pushes exactly the presence flag"),
     ]
     return gen, obls, log
 
@@ -409,7 +409,7 @@ pub fn make_function(ctx: &mut Ctx, args: &Vec<VString>) -> (r: Result<(), VErr>
 fn main() {{}}
 """
     obls = ctx_obls(names, ["C07"]) + [Obl("C07.capture.copies-handles", ["C07"], fn="make_function",
-            desc="make_function: the capture map has exactly the listed names, each bound to the same cell the defining scope's lookup (frames first, then its own captures) finds; no capture list -> not a closure")]
+            desc="make_function: the capture map has exactly the listed names, each bound to the same cell the name denotes lexically in the defining function (own variables, then its captured variables, then the rest of the call stack); no capture list -> not a closure")]
     return gen, obls, log
 
 
